@@ -32,6 +32,38 @@ COMMENT_MEANING = [
 ]
 
 
+def greedy_before_literal(pattern):
+    """Greedy unbounded repetitions that are followed, in the same
+    sequence, by a literal: [description, ...] (regex syntax tree)."""
+    import re._parser as rp
+    import re._constants as rc
+    try:
+        tree = rp.parse(pattern, re.VERBOSE)
+    except re.error as e:
+        raise AnalysisError(f'lexer pattern does not parse: {e}')
+    out = []
+
+    def seq(items):
+        items = list(items)
+        for k, (op, av) in enumerate(items):
+            if op is rc.MAX_REPEAT and av[1] == rc.MAXREPEAT:
+                wide = any(o in (rc.ANY, rc.IN, rc.NOT_LITERAL)
+                           for o, _ in av[2])
+                nested = any(o is rc.SUBPATTERN for o, _ in av[2])
+                if (wide or nested) and any(
+                        o is rc.LITERAL for o, _ in items[k + 1:]):
+                    out.append('a `*`/`+` over a character class')
+            if op in (rc.MAX_REPEAT, rc.MIN_REPEAT):
+                seq(av[2])
+            elif op is rc.SUBPATTERN:
+                seq(av[3])
+            elif op is rc.BRANCH:
+                for b in av[1]:
+                    seq(b)
+    seq(tree)
+    return out
+
+
 # ------------------------------------------------------------ lexer (source)
 class LexRule:
     def __init__(self, name, pattern, line, is_func, value=None,
@@ -379,7 +411,9 @@ def r_grammar(P, R):
                     'R-GRAMMAR', 'reserved', 'dd._parser.Lexer', sp,
                     f'the constant {sp!r} is lexed as {typ}', unit=unit)
     # comments are skipped
-    for text in ('x \\* comment', '(* c *) x', 'x (* multi\nline *)'):
+    for text in ('x \\* comment', '(* c *) x', 'x (* multi\nline *)',
+                 '(* a *) x (* b *)', '(* a *) x (* b\nc *)',
+                 '(* a\n*) x (* b *)', '(* a ) * ( *) x'):
         got = [t for t in lexer.lex(text)]
         n += 1
         if got == [('NAME', 'x')]:
@@ -389,6 +423,18 @@ def r_grammar(P, R):
             R.violation('R-GRAMMAR', 'comments', 'dd._parser.Lexer',
                         text[:12], f'{text!r} is lexed as {got}: comments '
                         'are not skipped', unit=unit)
+    # a delimited skip rule ends at the FIRST closing delimiter
+    for r in lexer.order:
+        if not r.skip:
+            continue
+        for where in greedy_before_literal(r.pattern):
+            R.violation(
+                'R-GRAMMAR', 'greedy-comment', 'dd._parser.Lexer', r.name,
+                f'rule t_{r.name} skips text with a greedy repetition '
+                f'({where}) followed by a closing delimiter: the match '
+                'runs to the LAST delimiter in reach, so everything '
+                'between two comments is skipped with them', unit=unit,
+                line=r.line)
     # node references
     got = lexer.lex('@-12')
     if got == [('AT', '@'), ('MINUS', '-'), ('NUMBER', '12')]:
